@@ -690,15 +690,27 @@ func ruleNoPartial(w *World, r *Report, fn string) {
 		n++
 		key := fmt.Sprintf("%s / failure return#%d", fn, n)
 		v := resolve(ret.Results[0])
-		ok := false
-		switch x := v.(type) {
-		case *ssa.Const:
-			ok = x.Value == nil || x.Value.String() == "false" || x.Value.String() == "0" || x.Value.String() == `""`
-		default:
-			ok = isEmptySliceBase(v)
+		zero := func(v ssa.Value) bool {
+			switch x := v.(type) {
+			case *ssa.Const:
+				return x.Value == nil || x.Value.String() == "false" || x.Value.String() == "0" || x.Value.String() == `""`
+			}
+			return isEmptySliceBase(v)
 		}
+		ok := zero(v)
+		if _, isPhi := v.(*ssa.Phi); isPhi && !ok {
+			ok = true
+			for _, l := range phiLeaves(v) {
+				if !zero(resolve(l)) {
+					ok = false
+				}
+			}
+		}
+		_, isCall := v.(*ssa.Call)
 		if ok {
 			r.add("NOPARTIAL", key, w.Pos(ret.Pos()), Discharged, "failure return carries "+describeValue(ret.Results[0]))
+		} else if isCall {
+			r.add("NOPARTIAL", key, w.Pos(ret.Pos()), Undecided, "failure return carries the result of a call ("+describeValue(ret.Results[0])+"), which may be the empty value")
 		} else {
 			r.add("NOPARTIAL", key, w.Pos(ret.Pos()), Violated, "failure return carries a computed value ("+describeValue(ret.Results[0])+")")
 		}
